@@ -23,7 +23,7 @@ ASSUMPTIONS = [
     "clDice: the scikit-image skeleton is trusted (same routine on both sides); only its use is checked",
     "calls passing only one of ref_instance_idx / pred_instance_idx are outside the statement (ambiguous) and not judged",
 ]
-MINIMUM = {"C06.checked": 5000, "C06.checked.clDSC": 100, "C06.relations_checked": 500}
+MINIMUM = {"f:absent_label_outside_dtype": 100, "C06.checked": 5000, "C06.checked.clDSC": 100, "C06.relations_checked": 500}
 BUDGET_S = {"quick": 200, "thorough": 2400}
 
 DTYPES = [np.uint8, np.int8, np.uint16, np.int16, np.uint32, np.int32, np.uint64, np.int64]
@@ -98,10 +98,16 @@ def run(case, ctx):
         plabs = [int(x) for x in np.unique(pred) if x != 0]
         rlabs = [int(x) for x in np.unique(refa) if x != 0]
         absent = int(info.max) - 7
+        if i % 5 == 1 and info.bits < 64:
+            # absent labels that do not fit the arrays' dtype: an existing label + 2^bits (wraps onto it if the
+            # label is cast to the array dtype), max + 2, and a small negative one for signed arrays
+            base = int(r.choice(plabs)) if plabs else 1
+            absent = [base + 2 ** info.bits, int(info.max) + 2, base + 2 ** (info.bits - (1 if info.min < 0 else 0))][i % 3]
+            ctx.count("f:absent_label_outside_dtype")
         ridx = int(r.choice(rlabs)) if rlabs and r.random() < 0.85 else absent
         k = int(r.integers(0, 5))
         if k == 0:
-            pidx = int(r.choice(plabs)) if plabs and r.random() < 0.85 else absent
+            pidx = int(r.choice(plabs)) if plabs and r.random() < (0.85 if i % 5 != 1 else 0.3) else absent
         elif k == 1:
             pidx = dtype(r.choice(plabs)) if plabs else dtype(absent)  # numpy scalar
         else:
